@@ -40,7 +40,9 @@ FINDINGS_FILE = os.path.join(VERIF, 'known_findings.json')
 class HarnessError(Exception):
     pass
 
-class RunTimeout(Exception):
+class RunTimeout(BaseException):
+    """Raised by the per-run wall-clock guard.  Not an Exception: the drivers wrap tool calls in `except Exception`
+    (a tool error is a verdict) and must not turn an expired guard into one."""
     pass
 
 def new_result():
@@ -185,7 +187,7 @@ def load_driver(prop):
     _driver = mod
     return mod
 
-def run_guarded(driver, scn, timeout_s=120):
+def run_guarded(driver, scn, timeout_s=300):
     """Run one scenario with a wall-clock guard. A timeout is a harness error, never a pass."""
     old = signal.signal(signal.SIGALRM, _alarm)
     signal.alarm(timeout_s)
@@ -227,7 +229,7 @@ def _chunk(args):
         if not res['ok'] and findings:
             try:
                 f = attribute(driver, scn, res['vclass'], findings)
-            except Exception:
+            except (Exception, RunTimeout):
                 f = None        # a neutraliser that cannot be applied attributes nothing
             if f is not None:
                 k = 'known:' + f['key']
@@ -285,7 +287,7 @@ def shrink(driver, scn, vclass, budget_s=60):
                 break
             try:
                 r = run_guarded(driver, cand, 60)
-            except Exception:
+            except (Exception, RunTimeout):
                 continue
             if not r['ok'] and r['vclass'] == vclass and not r['discard']:
                 cur = cand
